@@ -1663,7 +1663,21 @@ func hasAckedForceTerminate(gs *GroupScan) bool {
 func (s *Supervisor) checkOutcome(rec *ScanRecord) {
 	o := rec.Outcome
 	st := s.stats
-	st.Check("c20", uint64(rec.FaultsFired)<<8|uint64(len(rec.AllCalls())&0xff))
+	{
+		h := newHasher()
+		for _, gs := range rec.Groups {
+			h.add(gs)
+		}
+		for _, c := range rec.Pre {
+			h.h.Write([]byte(c.Op + c.Fault))
+		}
+		h.h.Write([]byte(fmt.Sprintf("|%v|%v|%v|%v", o.Err != "", o.Crash, o.Exit, o.Panic != "")))
+		if rec.FaultsFired > 0 || o.EndsLifetime() {
+			st.Check("c20-faulted-scan", h.sum())
+		} else {
+			st.Check("c20-clean-scan", h.sum())
+		}
+	}
 	if o.Panic != "" {
 		s.violate(Violation{Property: "C20", Rule: "c20-panic", Site: panicSite(o.Stack), Scan: rec.Index, Life: rec.Life, Detail: "RunOnce panicked: " + o.Panic, Excerpt: stackExcerpt(o.Stack)})
 		return
